@@ -107,45 +107,17 @@ TECHNIQUE = ("runtime monitoring: per-partition key-set disjointness + row-multi
              "for drop_duplicates/unique/nunique")
 CASE_TIMEOUT = 90
 
+# Labels that still fire and are recorded as known findings (known_findings.d/C40.json).
 PENDING = {
-    # ---- sort_values (all in the graph view: to_delayed / map_partitions / to_csv ...; compute() hides the first three
-    # because the repartition(npartitions=1) it appends is moved below the sort)
-    "sort_values:na-in-first-key&na_position=first:graph:key-order":
-        "sort_values(na_position='first') with several output partitions puts the NA rows at the head of the LAST partition "
-        "(SortValues._lower does not pass na_position to _SetPartitionsPreSetIndex)",
     "sort_values:first-key=category(categories-not-in-lexical-order):graph:key-order":
         "sort_values on an unordered categorical whose categories are not in lexical order: partitions are assigned by the "
         "lexical order of the category values, rows inside partitions by category order",
-    "sort_values:na-in-first-key&input-presorted-by-non-NA-values:graph:key-order":
-        "the 'presorted' shortcut looks at per-partition min/max that skip NA: partitions are sorted one by one and the NA rows "
-        "stay in the middle of the result",
-    "sort_values:first-key=float&na&all-NA-input-partition:graph:key-order":
-        "an input partition holding only NaN puts NaN into the quantile divisions: rows below the first finite division land "
-        "in the last partition (wrong global order)",
-    "sort_values:first-key=float&na&all-NA-column:IndexError@dataframe/partitionquantiles.py:process_val_weights":
-        "float key column without a single valid value (e.g. one NaN row plus empty partitions): IndexError while "
-        "computing quantile divisions",
-    "sort_values:first-key=Int64&na&all-NA-input-partition:TypeError@dataframe/partitionquantiles.py:merge_and_compress_summaries":
-        "nullable Int64 key with an all-NA input partition: 'boolean value of NA is ambiguous' while merging percentile summaries",
-    "sort_values:first-key=boolean&na:TypeError@dataframe/partitionquantiles.py:merge_and_compress_summaries":
-        "nullable boolean key holding NA: 'boolean value of NA is ambiguous' while merging percentile summaries",
-    "sort_values:first-key=str&na&all-NA-input-partition:ValueError@dataframe/partitionquantiles.py:percentiles_summary":
-        "str key with an all-NA input partition: 'StringArray requires a sequence of strings or pandas.NA'",
-    # ---- set_index
     "set_index:category(categories-not-in-lexical-order)-column:graph:index-order":
         "set_index on an unordered categorical with non-lexical category order: division values lose the category order, "
         "rows are partitioned wrongly (also through compute())",
-    "set_index:quantile-divisions:float-column&na-values&all-NA-input-partition:graph:index-order":
-        "same NaN-poisoned quantile divisions as sort_values: the smallest rows land in the last partition",
-    "set_index:quantile-divisions:float-column&na-values&input-presorted-by-non-NA-values:graph:index-order":
-        "presorted shortcut ignoring NA (see sort_values): NaN index values stay inside every partition",
-    "set_index:quantile-divisions:Int64-column&na-values&input-presorted-by-non-NA-values:graph:index-order":
-        "presorted shortcut ignoring NA, nullable Int64 column",
-    "set_index:quantile-divisions&Int64-column&na-values&all-NA-input-partition:TypeError@dataframe/partitionquantiles.py:merge_and_compress_summaries":
-        "nullable Int64 column with an all-NA input partition: TypeError while merging percentile summaries",
     "set_index:npartitions:compute:AssertionError@dataframe/dask_expr/_repartition.py:_partitions_boundaries":
         "set_index(col, npartitions=n) reports n partitions although the quantile divisions give ONE (all values equal, or an "
-        "empty frame): compute() appends repartition(npartitions=1) and RepartitionToFewer asserts (C41 finding 3, other symptom)",
+        "empty frame): compute() appends repartition(npartitions=1) and RepartitionToFewer asserts (gone with C41_06)",
     "set_index:sorted&category-column:TypeError@base.py:compute":
         "set_index(categorical column, sorted=True): compute_current_divisions takes min/max of an unordered categorical",
     "set_index:sorted&bool-column:IndexError@dataframe/shuffle.py:get_overlap":
@@ -154,11 +126,28 @@ PENDING = {
     "set_index:sorted:bool-column:graph:rows-length":
         "same overlap fix-up with one-row partitions: df.drop(True) / df.loc[[True]] act as masks and rows are lost",
     "set_index:sorted&empty-frame:IndexError@dataframe/dask_expr/_collection.py:compute_current_divisions":
-        "set_index(col, sorted=True) on an empty frame raises IndexError (same as C41 finding 8)",
-    # ---- drop_duplicates
+        "set_index(col, sorted=True) on an empty frame raises IndexError (gone with C41_08)",
     "drop_duplicates:shuffle=disk:survivor":
         "drop_duplicates(keep='first'|'last', shuffle_method='disk') keeps an arbitrary duplicate (other columns / index label "
         "differ from pandas): the disk shuffle does not keep row order",
+}
+# Labels found on the pinned tree and repaired by fixes_ready/C40_0x (documentation only; they are violations wherever the
+# patches are not applied).
+FIXED_BY = {
+    "C40_01_sort_values_na_position": [
+        "sort_values:na-in-first-key&na_position=first:graph:key-order"],
+    "C40_02_presorted_shortcut_with_nulls": [
+        "sort_values:na-in-first-key&input-presorted-by-non-NA-values:graph:key-order",
+        "set_index:quantile-divisions:float-column&na-values&input-presorted-by-non-NA-values:graph:index-order",
+        "set_index:quantile-divisions:Int64-column&na-values&input-presorted-by-non-NA-values:graph:index-order"],
+    "C40_03_partition_quantiles_ignore_nulls": [
+        "sort_values:first-key=float&na&all-NA-input-partition:graph:key-order",
+        "sort_values:first-key=float&na&all-NA-column:IndexError@dataframe/partitionquantiles.py:process_val_weights",
+        "sort_values:first-key=Int64&na&all-NA-input-partition:TypeError@dataframe/partitionquantiles.py:merge_and_compress_summaries",
+        "sort_values:first-key=boolean&na:TypeError@dataframe/partitionquantiles.py:merge_and_compress_summaries",
+        "sort_values:first-key=str&na&all-NA-input-partition:ValueError@dataframe/partitionquantiles.py:percentiles_summary",
+        "set_index:quantile-divisions:float-column&na-values&all-NA-input-partition:graph:index-order",
+        "set_index:quantile-divisions&Int64-column&na-values&all-NA-input-partition:TypeError@dataframe/partitionquantiles.py:merge_and_compress_summaries"],
 }
 
 INDEX_KINDS = ("range", "range", "sorted", "dups", "unsorted", "datetime", "strings", "float")
